@@ -23,8 +23,19 @@ Lemma base_handle2 : forall s, base (handle2 s) = base s.
 Proof. intros. unfold handle2. destruct (handler s); auto. apply base_warn2. Qed.
 Lemma base_adopt2 : forall x c s, base (adopt2 x c s) = set_salt x (base s).
 Proof. reflexivity. Qed.
-Lemma base_fail2 : forall s, base (fail2 s) = set_rx RRead (base s).
-Proof. intros. unfold fail2. rewrite base_warn2. reflexivity. Qed.
+Lemma base_fail2 : forall tl s, base (fail2 tl s) = set_rx (settle tl) (base s).
+Proof. reflexivity. Qed.
+Lemma base_flush : forall s, base (flush s) = base s.
+Proof.
+  intros s. unfold flush. destruct (perr s); auto. destruct (rx (base s)); auto. rewrite base_warn2. reflexivity.
+Qed.
+
+(* a step of the system = a step of the control part followed by handing a pending error to warnError once the
+   receive loop is back at its read *)
+Lemma step2_flush : forall s l s', step2 s l = Some s' -> exists s1, step2i s l = Some s1 /\ s' = flush s1.
+Proof.
+  intros s l s' H. unfold step2 in H. destruct (step2i s l) as [s1|]; [|discriminate]. inversion H. eauto.
+Qed.
 
 (* ---- retry events --------------------------------------------------------------------------- *)
 
@@ -77,7 +88,7 @@ Proof.
   inversion H. eauto.
 Qed.
 
-Lemma step2_inv : forall s l s', step2 s l = Some s' -> step2_case s l s'.
+Lemma step2_inv : forall s l s', step2i s l = Some s' -> step2_case s l s'.
 Proof.
   intros s l s' H. destruct l as [l1| |x]; simpl in H.
   - destruct (keyed s) eqn:K; [|discriminate]. simpl in H.
@@ -175,9 +186,9 @@ Proof. reflexivity. Qed.
 Lemma dispatch2_ok : forall f ks s, dispatch2_spec (base s) (base (dispatch2 f ks s)).
 Proof.
   intros [[sid seq] b] ks s. unfold dispatch2.
-  assert (FAIL : dispatch2_spec (base s) (base (fail2 (upd_base (log (ERecv sid seq)) s)))).
+  assert (FAIL : dispatch2_spec (base s) (base (fail2 (KTail sid seq :: ks) (upd_base (log (ERecv sid seq)) s)))).
   { rewrite base_fail2. constructor; simpl; auto.
-    - left. exists []. reflexivity.
+    - left. exists (KTail sid seq :: ks). reflexivity.
     - unfold rejected. simpl. intros j [H|H]; [discriminate|auto].
     - intros req v [H|H]; [discriminate|auto]. }
   destruct (negb (decodes (hinted_for b (base s)) b)) eqn:DE; [exact FAIL|].
@@ -205,14 +216,7 @@ Proof.
     + left. eexists. reflexivity.
     + unfold rejected. simpl. intros j [H|H]; [discriminate|auto].
     + intros r v [H|H]; [discriminate|auto].
-  - (* pong *) constructor; simpl; auto.
-    + left. exists (KTail sid seq :: ks). reflexivity.
-    + unfold rejected. simpl. intros j [H|H]; [discriminate|auto].
-    + intros r v [H|H]; [discriminate|auto].
-  - (* ack *) constructor; simpl; auto.
-    + left. exists (KTail sid seq :: ks). reflexivity.
-    + unfold rejected. simpl. intros j [H|H]; [discriminate|auto].
-    + intros r v [H|H]; [discriminate|auto].
+  (* pong, msgs_ack: the old state is the one of the failing case *)
   - (* update *) rewrite base_upd, base_handle2. constructor; simpl; auto.
     + left. exists (KTail sid seq :: ks). reflexivity.
     + unfold rejected. simpl. intros j [H|H]; [discriminate|auto].
@@ -258,7 +262,7 @@ Qed.
 
 (* ---- InvA ------------------------------------------------------------------------------------- *)
 
-Lemma InvA_step2 : forall s l s', InvA (base s) -> step2 s l = Some s' -> InvA (base s').
+Lemma InvA_step2i : forall s l s', InvA (base s) -> step2i s l = Some s' -> InvA (base s').
 Proof.
   intros s l s' IA H. apply step2_inv in H. destruct H.
   - eapply InvA_step; eauto.
@@ -277,7 +281,7 @@ Qed.
 
 (* ---- InvC ------------------------------------------------------------------------------------- *)
 
-Lemma InvC_step2 : forall s l s', InvA (base s) -> InvC (base s) -> step2 s l = Some s' -> InvC (base s').
+Lemma InvC_step2i : forall s l s', InvA (base s) -> InvC (base s) -> step2i s l = Some s' -> InvC (base s').
 Proof.
   intros s l s' IA IC H. apply step2_inv in H. destruct H.
   - eapply InvC_step; eauto.
@@ -315,4 +319,19 @@ Proof.
       * auto.
       * pose proof (settle_quiet ks) as Q. rewrite H1 in Q. destruct Q.
   - apply (InvC_mono (base s)); auto. simpl. discriminate.
+Qed.
+
+
+(* ---- the same for the complete step (flush does not touch the old state) ---------------------- *)
+
+Lemma InvA_step2 : forall s l s', InvA (base s) -> step2 s l = Some s' -> InvA (base s').
+Proof.
+  intros s l s' IA H. apply step2_flush in H. destruct H as (s1 & H & E). subst. rewrite base_flush.
+  eapply InvA_step2i; eauto.
+Qed.
+
+Lemma InvC_step2 : forall s l s', InvA (base s) -> InvC (base s) -> step2 s l = Some s' -> InvC (base s').
+Proof.
+  intros s l s' IA IC H. apply step2_flush in H. destruct H as (s1 & H & E). subst. rewrite base_flush.
+  eapply InvC_step2i; eauto.
 Qed.
